@@ -95,7 +95,7 @@ func mk(dir, harness string, c map[string]int64) *Instance {
 	if c == nil {
 		c = map[string]int64{}
 	}
-	return &Instance{Harness: harness, PkgDir: dir, Case: c, Unwind: 8, Budget: 20_000_000, Solver: Z3, Timeout: 20000, MaxPaths: 20000}
+	return &Instance{Harness: harness, PkgDir: dir, Case: c, Unwind: 8, Budget: 20_000_000, Solver: Z3, Timeout: 20000, MaxPaths: 20000, MaxSeconds: 900}
 }
 
 func cs(kv ...interface{}) map[string]int64 {
